@@ -161,12 +161,15 @@ class MinimizerBase(object):
                 _par_min = self.parameter_values[_par_index]
                 _par_err = self.parameter_errors[_par_index]
 
-                _cut_dn = self._find_cost_cut(_par_name, _par_min - _par_err, _target_chi_2, _min_parameters)
-                _asymm_par_errs[_par_index, 0] = _cut_dn - _par_min
+                try:
+                    _cut_dn = self._find_cost_cut(_par_name, _par_min - _par_err, _target_chi_2, _min_parameters)
+                    _asymm_par_errs[_par_index, 0] = _cut_dn - _par_min
 
-                _cut_up = self._find_cost_cut(_par_name, _par_min + _par_err, _target_chi_2, _min_parameters)
-                _asymm_par_errs[_par_index, 1] = _cut_up - _par_min
-                self._load_state()
+                    _cut_up = self._find_cost_cut(_par_name, _par_min + _par_err, _target_chi_2, _min_parameters)
+                    _asymm_par_errs[_par_index, 1] = _cut_up - _par_min
+                finally:
+                    # return to the minimum, also if the search failed
+                    self._load_state()
         return _asymm_par_errs
 
     def _get_cost_value(self, parameter_name, parameter_value, min_parameters):
